@@ -391,6 +391,9 @@ func (e *Engine) unusedAnchors() string {
 			// an anchor that names an instruction that exists but was never reached is fine
 			a := strings.TrimPrefix(at.Anchor, "after ")
 			found := false
+			if strings.HasSuffix(a, "#?") {
+				continue // "every occurrence, if any": used to forbid an operation outright
+			}
 			if strings.HasPrefix(a, "step ") {
 				return fmt.Sprintf("iteration step anchor %q matches no Range call reached in %s", at.Anchor, c.Key)
 			}
